@@ -652,3 +652,714 @@ Proof.
   - exists (mkU [] false [(1, VConst 1)] [(2, VAttr 1)] []).
     split; [reflexivity|]. split; [vm_compute; discriminate|]. split; [reflexivity|exists 2, 1; reflexivity].
 Qed.
+
+(* ============================================================================================== *)
+(* Part O : remove_unused_self_cls                                                                 *)
+(* ============================================================================================== *)
+Definition rs_cls (L NI : list name) (k : cls) : cls :=
+  mkCls (c_name k) (c_base k) (map (rs_meth L NI k) (c_meths k)) (c_alias k).
+
+Lemma rs_item_cls L NI k : rs_item L NI (IClass k) = IClass (rs_cls L NI k).
+Proof. reflexivity. Qed.
+
+Lemma rs_meth_name L NI k x : m_name (rs_meth L NI k x) = m_name x.
+Proof.
+  unfold rs_meth.
+  repeat match goal with |- context [if ?b then _ else _] => destruct b; try reflexivity end;
+  destruct (m_kind x); try reflexivity;
+  repeat match goal with |- context [if ?b then _ else _] => destruct b; try reflexivity end.
+Qed.
+
+Lemma rs_find_cls L NI its c :
+  find_cls (map (rs_item L NI) its) c = option_map (rs_cls L NI) (find_cls its c).
+Proof.
+  induction its as [|[k|g] tl IH]; simpl; auto.
+  destruct (Nat.eqb (c_name k) c); simpl; auto.
+Qed.
+Lemma rs_find_fn L NI its f : find_fn (map (rs_item L NI) its) f = find_fn its f.
+Proof.
+  induction its as [|[k|g] tl IH]; simpl; auto.
+  destruct (Nat.eqb (f_name g) f); auto.
+Qed.
+Lemma rs_find_meth L NI k ms m :
+  find_meth (map (rs_meth L NI k) ms) m = option_map (rs_meth L NI k) (find_meth ms m).
+Proof.
+  induction ms as [|x tl IH]; simpl; auto.
+  rewrite rs_meth_name. destruct (Nat.eqb (m_name x) m); simpl; auto.
+Qed.
+Lemma rs_cls_attr L NI k m : cls_attr (rs_cls L NI k) m = option_map (rs_meth L NI k) (cls_attr k m).
+Proof.
+  unfold cls_attr. simpl. destruct (find_alias (c_alias k) m); apply rs_find_meth.
+Qed.
+Lemma rs_chain L NI its : forall f c,
+  chain (map (rs_item L NI) its) f c = map (rs_cls L NI) (chain its f c).
+Proof.
+  induction f as [|f IH]; intros c; simpl; auto.
+  rewrite rs_find_cls. destruct (find_cls its c) as [k|]; simpl; auto.
+  f_equal. destruct (c_base k); simpl; auto.
+Qed.
+(* lookup that also returns the class record *)
+Fixpoint lookup_k (ks : list cls) (m : name) : option (cls * meth) :=
+  match ks with
+  | [] => None
+  | k :: tl => match cls_attr k m with Some x => Some (k, x) | None => lookup_k tl m end
+  end.
+Lemma lookup_in_k ks m :
+  lookup_in ks m = option_map (fun p => (c_name (fst p), snd p)) (lookup_k ks m).
+Proof. induction ks as [|k tl IH]; simpl; auto. destruct (cls_attr k m); simpl; auto. Qed.
+Lemma rs_lookup L NI ks m :
+  lookup_in (map (rs_cls L NI) ks) m
+  = option_map (fun p => (c_name (fst p), rs_meth L NI (fst p) (snd p))) (lookup_k ks m).
+Proof.
+  induction ks as [|k tl IH]; simpl; auto.
+  rewrite rs_cls_attr. destruct (cls_attr k m); simpl; auto.
+Qed.
+Lemma rs_after_owner L NI ks o : after_owner (map (rs_cls L NI) ks) o = map (rs_cls L NI) (after_owner ks o).
+Proof. induction ks as [|k tl IH]; simpl; auto. destruct (Nat.eqb (c_name k) o); auto. Qed.
+
+(* ---- the steps of run, as separate functions ---- *)
+Definition runner := selfv -> option name -> list act -> list tev -> res2.
+Definition call_t (rn : runner) (t : target) (nargs : nat) (read : bool) (tr : list tev) : res2 :=
+  match t with
+  | TErr o => (tr, o)
+  | TInt => if read then (tr, OOk) else (tr, OTypeErr)
+  | TFn g => if read then (tr, OOk)
+             else if Nat.eqb (f_params g) nargs then rn SNone None (f_body g) tr
+             else (tr, OTypeErr)
+  | TMeth h o x =>
+      let (sv, fits) := bind h x nargs in
+      match m_kind x, read with
+      | KProp, true => match h with
+                       | ViaInst _ => if fits then rn sv (Some o) (m_body x) tr else (tr, OTypeErr)
+                       | ViaCls _ => (tr, OOk)
+                       end
+      | KProp, false => match h with
+                        | ViaInst _ => if fits then andthen2 (rn sv (Some o) (m_body x) tr)
+                                                             (fun tr' => (tr', OTypeErr))
+                                       else (tr, OTypeErr)
+                        | ViaCls _ => (tr, OTypeErr)
+                        end
+      | _, true => (tr, OOk)
+      | _, false => if fits then rn sv (Some o) (m_body x) tr else (tr, OTypeErr)
+      end
+  end.
+Definition recv_then_t (M : module) (rn : runner) (r : recv) (tr : list tev) (k : list tev -> res2) : res2 :=
+  match creates r with
+  | None => k tr
+  | Some c =>
+      match find_cls (m_items M) c with
+      | None => (tr, ONameErr)
+      | Some _ =>
+          match lookup_in (chain (m_items M) CHAIN_FUEL c) INIT with
+          | None => k tr
+          | Some (o, x) =>
+              let (sv, fits) := bind (ViaInst c) x 0 in
+              if fits
+              then match m_kind x with
+                   | KProp => andthen2 (rn sv (Some o) (m_body x) tr) (fun tr' => (tr', OTypeErr))
+                   | _ => andthen2 (rn sv (Some o) (m_body x) tr) k
+                   end
+              else (tr, OTypeErr)
+          end
+      end
+  end.
+Definition act_res (M : module) (rn : runner) (self : selfv) (owner : option name) (a : act) (tr : list tev) : res2 :=
+  match a with
+  | AEv k => (tr ++ [TEv k], OOk)
+  | AUse => match self with SNone => (tr, ONameErr) | _ => (tr ++ [TUse self], OOk) end
+  | ACall r m nargs => recv_then_t M rn r tr (fun tr1 => call_t rn (resolve M self owner r m) nargs false tr1)
+  | ARead r m => recv_then_t M rn r tr (fun tr1 => call_t rn (resolve M self owner r m) 0 true tr1)
+  | ADyn r m nargs => recv_then_t M rn r tr (fun tr1 => call_t rn (resolve M self owner r m) nargs false tr1)
+  | AInit c => recv_then_t M rn (RNew c) tr (fun tr1 => (tr1, OOk))
+  end.
+Lemma run_S M f self owner a rest tr :
+  run M (S f) self owner (a :: rest) tr
+  = andthen2 (act_res M (run M f) self owner a tr) (fun tr1 => run M f self owner rest tr1).
+Proof. destruct a; reflexivity. Qed.
+Lemma run_S_nil M f self owner tr : run M (S f) self owner [] tr = (tr, OOk).
+Proof. reflexivity. Qed.
+Lemma run_O M self owner body tr : run M 0 self owner body tr = (tr, OFuel).
+Proof. reflexivity. Qed.
+
+Definition uses_first (a : act) : bool :=
+  match a with
+  | AUse => true
+  | ACall RSelf _ _ | ARead RSelf _ | ADyn RSelf _ _ => true
+  | ACall RSuper _ _ | ARead RSuper _ | ADyn RSuper _ _ => true
+  | _ => false
+  end.
+Definition no_first (b : list act) : bool := forallb (fun a => negb (uses_first a)) b.
+Definition cm_act (NI : list name) (k : cls) (a : act) : bool :=
+  match a with
+  | AUse => false
+  | ARead RSelf _ | ADyn RSelf _ _ => false
+  | ACall RSelf m _ => nmem m (non_instance NI k)
+  | ACall RSuper _ _ | ARead RSuper _ | ADyn RSuper _ _ => false
+  | _ => true
+  end.
+Definition cm_ok (NI : list name) (k : cls) (b : list act) : bool := forallb (cm_act NI k) b.
+
+Lemma no_first_of NI k b :
+  has_super b = false -> inst_access NI k b = false -> static_access NI k b = false -> no_first b = true.
+Proof.
+  unfold has_super, inst_access, static_access, no_first.
+  induction b as [|a b IH]; simpl; auto. intros H1 H2 H3.
+  apply orb_false_iff in H1. destruct H1 as [H1 H1'].
+  apply orb_false_iff in H2. destruct H2 as [H2 H2'].
+  apply orb_false_iff in H3. destruct H3 as [H3 H3'].
+  rewrite (IH H1' H2' H3'), andb_true_r.
+  destruct a as [| |r m n|r m|r m n|c]; simpl in *; auto; destruct r; simpl in *; auto; try discriminate.
+  destruct (nmem m (non_instance NI k)); simpl in *; discriminate.
+Qed.
+Lemma cm_ok_of NI k b : has_super b = false -> inst_access NI k b = false -> cm_ok NI k b = true.
+Proof.
+  unfold has_super, inst_access, cm_ok.
+  induction b as [|a b IH]; simpl; auto. intros H1 H2.
+  apply orb_false_iff in H1. destruct H1 as [H1 H1'].
+  apply orb_false_iff in H2. destruct H2 as [H2 H2'].
+  rewrite (IH H1' H2'), andb_true_r.
+  destruct a as [| |r m n|r m|r m n|c]; simpl in *; auto; destruct r; simpl in *; auto; try discriminate.
+  apply negb_false_iff in H2. exact H2.
+Qed.
+
+Inductive rs_shape (L NI : list name) (k : cls) (x x' : meth) : Prop :=
+| RsSame : x' = x -> rs_shape L NI k x x'
+| RsStatic : x' = mkMeth (m_name x) KStatic (pred (m_params x)) (m_body x) ->
+             m_params x <> 0 -> (m_kind x = KPlain \/ m_kind x = KClassm) -> no_first (m_body x) = true ->
+             (nmem (m_name x) L = false \/ nmem (m_name x) (non_instance NI k) = true) ->
+             nmem (m_name x) (map snd (c_alias k)) = false ->
+             rs_shape L NI k x x'
+| RsClassm : x' = mkMeth (m_name x) KClassm (m_params x) (m_body x) ->
+             m_params x <> 0 -> m_kind x = KPlain -> cm_ok NI k (m_body x) = true ->
+             (nmem (m_name x) L = false \/ nmem (m_name x) (non_instance NI k) = true) ->
+             nmem (m_name x) (map snd (c_alias k)) = false ->
+             rs_shape L NI k x x'.
+
+Lemma rs_meth_shape L NI k x : rs_shape L NI k x (rs_meth L NI k x).
+Proof.
+  unfold rs_meth.
+  destruct (Nat.eqb (m_params x) 0) eqn:Ep; [apply RsSame; reflexivity|].
+  apply Nat.eqb_neq in Ep.
+  destruct (is_magic (m_name x)); [apply RsSame; reflexivity|].
+  destruct (nmem (m_name x) (map snd (c_alias k))) eqn:Ea; [apply RsSame; reflexivity|].
+  destruct (nmem (m_name x) L && negb (nmem (m_name x) (non_instance NI k))) eqn:El; [apply RsSame; reflexivity|].
+  assert (HL : nmem (m_name x) L = false \/ nmem (m_name x) (non_instance NI k) = true).
+  { apply andb_false_iff in El. destruct El as [El|El]; [left; exact El|right; apply negb_false_iff; exact El]. }
+  destruct (has_super (m_body x)) eqn:Es; [apply RsSame; reflexivity|].
+  destruct (m_kind x) eqn:Ek; try (apply RsSame; reflexivity).
+  - destruct (inst_access NI k (m_body x)) eqn:Ei; [apply RsSame; reflexivity|].
+    destruct (static_access NI k (m_body x)) eqn:Et.
+    + apply RsClassm; auto. apply cm_ok_of; auto.
+    + apply RsStatic; auto. eapply no_first_of; eauto.
+  - destruct (inst_access NI k (m_body x)) eqn:Ei; [apply RsSame; reflexivity|].
+    destruct (static_access NI k (m_body x)) eqn:Et.
+    + apply RsSame; reflexivity.
+    + apply RsStatic; auto. eapply no_first_of; eauto.
+Qed.
+
+Lemma nmem_In x l : nmem x l = true <-> In x l.
+Proof.
+  unfold nmem. rewrite existsb_exists. split.
+  - intros [y [Hy E]]. apply Nat.eqb_eq in E. subst. exact Hy.
+  - intros H. exists x. split; [exact H|apply Nat.eqb_refl].
+Qed.
+Lemma find_meth_in ms m x : find_meth ms m = Some x -> In x ms /\ m_name x = m.
+Proof.
+  induction ms as [|y tl IH]; simpl; [discriminate|].
+  destruct (Nat.eqb (m_name y) m) eqn:E.
+  - intros H; inversion H; subst. apply Nat.eqb_eq in E. auto.
+  - intros H. destruct (IH H). auto.
+Qed.
+Lemma find_alias_in al a m : find_alias al a = Some m -> In (a, m) al.
+Proof.
+  induction al as [|[x y] tl IH]; simpl; [discriminate|].
+  destruct (Nat.eqb x a) eqn:E.
+  - intros H; inversion H; subst. apply Nat.eqb_eq in E. subst. auto.
+  - intros H. right. auto.
+Qed.
+Lemma cls_attr_in k m x :
+  cls_attr k m = Some x ->
+  In x (c_meths k) /\ (m_name x = m \/ nmem (m_name x) (map snd (c_alias k)) = true).
+Proof.
+  unfold cls_attr. destruct (find_alias (c_alias k) m) as [m'|] eqn:Ea; intros H.
+  - apply find_meth_in in H. destruct H as [H1 H2]. split; [exact H1|]. right.
+    apply nmem_In. apply find_alias_in in Ea. subst m'. apply in_map_iff. exists (m, m_name x). auto.
+  - apply find_meth_in in H. destruct H; auto.
+Qed.
+Lemma find_cls_in its c k : find_cls its c = Some k -> In (IClass k) its /\ c_name k = c.
+Proof.
+  induction its as [|[k'|g] tl IH]; simpl; [discriminate| |].
+  - destruct (Nat.eqb (c_name k') c) eqn:E.
+    + intros H; inversion H; subst. apply Nat.eqb_eq in E. auto.
+    + intros H. destruct (IH H). auto.
+  - intros H. destruct (IH H). auto.
+Qed.
+Lemma find_fn_in its f g : find_fn its f = Some g -> In (IFunc g) its.
+Proof.
+  induction its as [|[k'|g'] tl IH]; simpl; [discriminate| |].
+  - intros H. right. auto.
+  - destruct (Nat.eqb (f_name g') f); [intros H; inversion H; subst; auto|intros H; right; auto].
+Qed.
+Lemma in_classes M k : In (IClass k) (m_items M) <-> In k (classes M).
+Proof.
+  unfold classes. rewrite in_flat_map. split.
+  - intros H. exists (IClass k). split; [exact H|left; reflexivity].
+  - intros [[k'|g] [H1 H2]]; simpl in H2; [destruct H2 as [->|[]]; exact H1|contradiction].
+Qed.
+Lemma chain_in its : forall f c k, In k (chain its f c) -> In (IClass k) its.
+Proof.
+  induction f as [|f IH]; intros c k; simpl; [contradiction|].
+  destruct (find_cls its c) as [k0|] eqn:E; [|contradiction].
+  intros [->|H]; [apply find_cls_in in E; tauto|].
+  destruct (c_base k0); [eapply IH; eauto|contradiction].
+Qed.
+Lemma lookup_k_in ks m k x : lookup_k ks m = Some (k, x) -> In k ks /\ cls_attr k m = Some x.
+Proof.
+  induction ks as [|k' tl IH]; simpl; [discriminate|].
+  destruct (cls_attr k' m) eqn:E.
+  - intros H; inversion H; subst. auto.
+  - intros H. destruct (IH H). auto.
+Qed.
+Lemma after_owner_incl ks o k : In k (after_owner ks o) -> In k ks.
+Proof.
+  induction ks as [|k' tl IH]; simpl; [contradiction|].
+  destruct (Nat.eqb (c_name k') o); auto.
+Qed.
+
+Lemma nodup_names_in (l : list meth) x y :
+  nodup_names (map m_name l) = true -> In x l -> In y l -> m_name x = m_name y -> x = y.
+Proof.
+  induction l as [|z tl IH]; simpl; [contradiction|].
+  intros H Hx Hy E. apply andb_true_iff in H. destruct H as [H1 H2]. apply negb_true_iff in H1.
+  assert (Hn : forall w, In w tl -> m_name w <> m_name z).
+  { intros w Hw Ew. assert (nmem (m_name z) (map m_name tl) = true); [|congruence].
+    apply nmem_In. apply in_map_iff. exists w. auto. }
+  destruct Hx as [->|Hx], Hy as [->|Hy]; auto.
+  - exfalso. apply (Hn y Hy). auto.
+  - exfalso. apply (Hn x Hx). auto.
+Qed.
+Lemma inst_names_in M k x : In k (classes M) -> In x (c_meths k) -> noninst x = false -> nmem (m_name x) (inst_names M) = true.
+Proof.
+  intros Hk Hx Hn. apply nmem_In. unfold inst_names. apply in_flat_map. exists k. split; [exact Hk|].
+  apply in_flat_map. exists x. split; [exact Hx|]. rewrite Hn. left; reflexivity.
+Qed.
+Lemma non_instance_spec NI k m :
+  nmem m (non_instance NI k) = true -> nmem m NI = false /\ nmem m (map m_name (c_meths k)) = true.
+Proof.
+  intros E. apply nmem_In in E. unfold non_instance in E. apply in_flat_map in E. destruct E as [y [Hy Hin]].
+  destruct (noninst y && negb (nmem (m_name y) NI)) eqn:Ec; [|contradiction].
+  destruct Hin as [<-|[]]. apply andb_true_iff in Ec. destruct Ec as [_ Ec]. apply negb_true_iff in Ec.
+  split; [exact Ec|]. apply nmem_In. apply in_map_iff. exists y. auto.
+Qed.
+Lemma plain_not_noninst M k x :
+  In k (classes M) -> In x (c_meths k) -> m_kind x = KPlain -> nmem (m_name x) (non_instance (inst_names M) k) = false.
+Proof.
+  intros Hk Hx Hp. destruct (nmem (m_name x) (non_instance (inst_names M) k)) eqn:E; [|reflexivity].
+  apply non_instance_spec in E. destruct E as [E _].
+  rewrite (inst_names_in M k x Hk Hx) in E; [discriminate|]. unfold noninst. rewrite Hp. reflexivity.
+Qed.
+
+Definition no_dyn (M : module) : bool := forallb (fun ca => negb (is_dyn (snd ca))) (ctx_acts M).
+
+Section RS.
+Variable M : module.
+Hypothesis Hwf : wf_mod M = true.
+Hypothesis Hnd : no_dyn M = true.
+Let L := looked_up_on_class M.
+Let NI := inst_names M.
+Let cn := map c_name (classes M).
+Let M' := rs_pass M.
+
+Definition in_code (flag : bool) (b : list act) : Prop :=
+  (forall a m, In a b -> In m (looked_of cn flag a) -> nmem m L = true) /\
+  (forall a, In a b -> is_dyn a = false).
+
+Lemma no_dyn_in ctx a : In (ctx, a) (ctx_acts M) -> is_dyn a = false.
+Proof.
+  intros H. unfold no_dyn in Hnd. rewrite forallb_forall in Hnd. specialize (Hnd _ H).
+  simpl in Hnd. apply negb_true_iff in Hnd. exact Hnd.
+Qed.
+Definition flag_ok (s : selfv) (flag : bool) : Prop :=
+  match s with SCls _ => flag = true | _ => True end.
+
+Inductive frel : selfv -> selfv -> list act -> Prop :=
+| FSame s b : frel s s b
+| FStatic s b : no_first b = true -> frel s SNone b
+| FClassm c k b : In k (classes M) -> cm_ok NI k b = true -> frel (SInst c) (SCls c) b.
+
+Lemma frel_tl s s' a b : frel s s' (a :: b) -> frel s s' b.
+Proof.
+  intros H. inversion H; subst.
+  - apply FSame.
+  - apply FStatic. simpl in H0. apply andb_true_iff in H0. tauto.
+  - eapply FClassm; eauto. simpl in H1. apply andb_true_iff in H1. tauto.
+Qed.
+Lemma in_code_tl flag a b : in_code flag (a :: b) -> in_code flag b.
+Proof. intros [H1 H2]. split; [intros x m Hx; apply H1; right; exact Hx|intros x Hx; apply H2; right; exact Hx]. Qed.
+
+(* an attribute that is a method name of some class is not an alias *)
+Lemma not_alias k m : In k (classes M) -> nmem m (all_meth_names M) = true -> find_alias (c_alias k) m = None.
+Proof.
+  intros Hk Hm. destruct (find_alias (c_alias k) m) as [m'|] eqn:E; [|reflexivity].
+  apply find_alias_in in E. unfold wf_mod in Hwf. rewrite forallb_forall in Hwf. specialize (Hwf k Hk).
+  rewrite forallb_forall in Hwf. specialize (Hwf _ E). simpl in Hwf. rewrite Hm in Hwf. discriminate.
+Qed.
+
+Lemma in_code_meth k x : In k (classes M) -> In x (c_meths k) -> in_code (is_classm x) (m_body x).
+Proof.
+  intros Hk Hx. split.
+  - intros a m Ha Hm. apply nmem_In. unfold L, looked_up_on_class. fold cn.
+    apply in_or_app. left. apply in_flat_map. exists (IClass k). split; [apply in_classes; exact Hk|].
+    apply in_flat_map. exists x. split; [exact Hx|]. apply in_flat_map. exists a. auto.
+  - intros a Ha. apply (no_dyn_in (Some (c_name k))). unfold ctx_acts. apply in_or_app. left.
+    apply in_flat_map. exists (IClass k). split; [apply in_classes; exact Hk|].
+    apply in_flat_map. exists x. split; [exact Hx|]. apply in_map_iff. exists a. auto.
+Qed.
+Lemma in_code_fn f g : find_fn (m_items M) f = Some g -> in_code false (f_body g).
+Proof.
+  intros Hf. split.
+  - intros a m Ha Hm. apply nmem_In. unfold L, looked_up_on_class. fold cn.
+    apply in_or_app. left. apply in_flat_map. exists (IFunc g). split; [eapply find_fn_in; eauto|].
+    apply in_flat_map. exists a. auto.
+  - intros a Ha. apply (no_dyn_in None). unfold ctx_acts. apply in_or_app. left.
+    apply in_flat_map. exists (IFunc g). split; [eapply find_fn_in; eauto|].
+    apply in_map_iff. exists a. auto.
+Qed.
+Lemma in_code_main : in_code false (map AInit (m_vars M) ++ m_main M).
+Proof.
+  split.
+  - intros a m Ha Hm. apply in_app_or in Ha. destruct Ha as [Ha|Ha].
+    + apply in_map_iff in Ha. destruct Ha as [c [<- _]]. simpl in Hm. contradiction.
+    + apply nmem_In. unfold L, looked_up_on_class. fold cn. apply in_or_app. right.
+      apply in_flat_map. exists a. auto.
+  - intros a Ha. apply in_app_or in Ha. destruct Ha as [Ha|Ha].
+    + apply in_map_iff in Ha. destruct Ha as [c [<- _]]. reflexivity.
+    + apply (no_dyn_in None). unfold ctx_acts. apply in_or_app. right. apply in_map_iff. exists a. auto.
+Qed.
+
+Lemma items' : m_items M' = map (rs_item L NI) (m_items M).
+Proof. reflexivity. Qed.
+
+(* what the runner of M' does in a related frame equals what the runner of M does *)
+Definition IHrun (f : nat) : Prop :=
+  forall s s' owner b tr flag,
+    frel s s' b -> in_code flag b -> flag_ok s flag ->
+    run M' f s' owner b tr = run M f s owner b tr.
+
+(* compatible (binding, method) pairs: same arity test, related frames *)
+Definition compat (h h' : how) (x x' : meth) : Prop :=
+  m_body x' = m_body x /\
+  ((m_kind x = KProp \/ m_kind x' = KProp) -> x' = x /\ h' = h) /\
+  (forall n, snd (bind h' x' n) = snd (bind h x n)) /\
+  (forall n, frel (fst (bind h x n)) (fst (bind h' x' n)) (m_body x)) /\
+  (forall n, flag_ok (fst (bind h x n)) (is_classm x)).
+
+Lemma flag_bind h x n : flag_ok (fst (bind h x n)) (is_classm x).
+Proof. unfold bind, is_classm. destruct h, (m_kind x); simpl; auto; destruct (Nat.eqb n 0); simpl; auto. Qed.
+
+Lemma pred_fits p n : p <> 0 -> Nat.eqb (pred p) n = Nat.eqb p (S n).
+Proof. destruct p; [congruence|reflexivity]. Qed.
+
+Lemma compat_inst c k x : In k (classes M) -> compat (ViaInst c) (ViaInst c) x (rs_meth L NI k x).
+Proof.
+  intros Hk.
+  destruct (rs_meth_shape L NI k x) as [E|E Hp Hkd Hnf _ _|E Hp Hkd Hcm _ _]; rewrite E; unfold compat.
+  - split; [reflexivity|]. split; [auto|]. split; [auto|].
+    split; [intros; apply FSame|]. intros n; exact (flag_bind _ x n).
+  - split; [reflexivity|]. split.
+    { intros [H|H]; [destruct Hkd; congruence|discriminate]. }
+    split; [intros n; unfold bind; cbn [m_kind m_params snd]; destruct Hkd as [Hkd|Hkd]; rewrite Hkd;
+            cbn [snd]; apply pred_fits; exact Hp|].
+    split; [intros n; unfold bind; cbn [m_kind m_params fst]; destruct Hkd as [Hkd|Hkd]; rewrite Hkd;
+            cbn [fst]; apply FStatic; exact Hnf|].
+    intros n; exact (flag_bind _ x n).
+  - split; [reflexivity|]. split.
+    { intros [H|H]; [congruence|discriminate]. }
+    split; [intros n; unfold bind; cbn [m_kind m_params snd]; rewrite Hkd; reflexivity|].
+    split; [intros n; unfold bind; cbn [m_kind m_params fst]; rewrite Hkd; cbn [fst];
+            eapply FClassm; eauto|].
+    intros n; exact (flag_bind _ x n).
+Qed.
+
+(* through a class: only when the method keeps its shape, or a class method becomes static *)
+Lemma compat_cls c k x :
+  In k (classes M) -> In x (c_meths k) ->
+  (m_kind x = KPlain -> rs_meth L NI k x = x) ->
+  compat (ViaCls c) (ViaCls c) x (rs_meth L NI k x).
+Proof.
+  intros Hk Hx Hplain.
+  destruct (rs_meth_shape L NI k x) as [E|E Hp Hkd Hnf _ _|E Hp Hkd Hcm _ _]; rewrite E; unfold compat.
+  - split; [reflexivity|]. split; [auto|]. split; [auto|].
+    split; [intros; apply FSame|]. intros n; exact (flag_bind _ x n).
+  - destruct Hkd as [Hkd|Hkd].
+    { specialize (Hplain Hkd). rewrite E in Hplain. exfalso.
+      assert (m_kind x = KStatic) by (rewrite <- Hplain; reflexivity). congruence. }
+    split; [reflexivity|]. split.
+    { intros [H|H]; [congruence|discriminate]. }
+    split; [intros n; unfold bind; cbn [m_kind m_params snd]; rewrite Hkd; cbn [snd]; apply pred_fits; exact Hp|].
+    split; [intros n; unfold bind; cbn [m_kind m_params fst]; rewrite Hkd; cbn [fst]; apply FStatic; exact Hnf|].
+    intros n; exact (flag_bind _ x n).
+  - specialize (Hplain Hkd). rewrite E in Hplain. exfalso.
+    assert (m_kind x = KClassm) by (rewrite <- Hplain; reflexivity). congruence.
+Qed.
+
+(* self.s() in a method that becomes a class method: s is static / a class method everywhere *)
+Lemma compat_inst_cls c k x :
+  In k (classes M) -> noninst x = true -> compat (ViaInst c) (ViaCls c) x (rs_meth L NI k x).
+Proof.
+  intros Hk Hn.
+  destruct (rs_meth_shape L NI k x) as [E|E Hp Hkd Hnf _ _|E Hp Hkd Hcm _ _]; rewrite E; unfold compat.
+  - split; [reflexivity|]. split.
+    { intros [H|H]; unfold noninst in Hn; rewrite H in Hn; discriminate. }
+    split; [intros n; unfold bind, noninst in *; destruct (m_kind x); try discriminate; reflexivity|].
+    split; [intros n; unfold bind, noninst in *; destruct (m_kind x); try discriminate; apply FSame|].
+    intros n; exact (flag_bind _ x n).
+  - assert (Hkc : m_kind x = KClassm).
+    { destruct Hkd as [Hkd|Hkd]; [unfold noninst in Hn; rewrite Hkd in Hn; discriminate|exact Hkd]. }
+    split; [reflexivity|]. split.
+    { intros [H|H]; [congruence|discriminate]. }
+    split; [intros n; unfold bind; cbn [m_kind m_params snd]; rewrite Hkc; cbn [snd]; apply pred_fits; exact Hp|].
+    split; [intros n; unfold bind; cbn [m_kind m_params fst]; rewrite Hkc; cbn [fst]; apply FStatic; exact Hnf|].
+    intros n; exact (flag_bind _ x n).
+  - unfold noninst in Hn. rewrite Hkd in Hn. discriminate.
+Qed.
+
+Lemma call_meth_eq f h h' o x x' n read tr :
+  IHrun f -> compat h h' x x' -> in_code (is_classm x) (m_body x) ->
+  call_t (run M' f) (TMeth h' o x') n read tr = call_t (run M f) (TMeth h o x) n read tr.
+Proof.
+  intros IH [Hb [Hp [Hf [Hfr Hfl]]]] Hc. unfold call_t.
+  specialize (Hf n). specialize (Hfr n). specialize (Hfl n).
+  destruct (bind h x n) as [sv fits] eqn:E1. destruct (bind h' x' n) as [sv' fits'] eqn:E2.
+  simpl in Hf, Hfr, Hfl. subst fits'.
+  assert (Hrun : forall tr0, run M' f sv' (Some o) (m_body x') tr0 = run M f sv (Some o) (m_body x) tr0).
+  { intros tr0. rewrite Hb. eapply IH; eauto. }
+  destruct (m_kind x) eqn:Ek; destruct (m_kind x') eqn:Ek';
+    try (destruct (Hp (or_introl eq_refl)) as [-> ->]; congruence);
+    try (destruct (Hp (or_intror eq_refl)) as [-> ->]; congruence);
+    try (destruct read; [reflexivity|destruct fits; [apply Hrun|reflexivity]]).
+  destruct (Hp (or_introl eq_refl)) as [-> ->].
+  destruct read; destruct h; try reflexivity; destruct fits; try reflexivity; rewrite Hrun; reflexivity.
+Qed.
+
+Lemma looked_plain_same k m x :
+  In k (classes M) -> cls_attr k m = Some x -> nmem m L = true -> m_kind x = KPlain -> rs_meth L NI k x = x.
+Proof.
+  intros Hk Ha Hm Hp. apply cls_attr_in in Ha. destruct Ha as [Hx Hn].
+  pose proof (plain_not_noninst M k x Hk Hx Hp) as Hni. fold NI in Hni.
+  destruct (rs_meth_shape L NI k x) as [E|E _ _ _ Hl Hal|E _ _ _ Hl Hal]; [exact E| |];
+    (destruct Hn as [Hn|Hn]; [|congruence]; subst m; destruct Hl; congruence).
+Qed.
+
+Definition no_dyn_body (b : list act) : Prop := forall a, In a b -> is_dyn a = false.
+
+(* a method found through the chain of a class of M *)
+Lemma chain_classes f c k : In k (chain (m_items M) f c) -> In k (classes M).
+Proof. intros H. apply in_classes. eapply chain_in; eauto. Qed.
+
+Lemma via_eq f (h h' : how) ks m n read tr :
+  IHrun f -> (forall k, In k ks -> In k (classes M)) ->
+  (forall k x, In k ks -> cls_attr k m = Some x -> compat h h' x (rs_meth L NI k x)) ->
+  call_t (run M' f) (match lookup_in (map (rs_cls L NI) ks) m with Some (o, x) => TMeth h' o x | None => TErr OAttrErr end) n read tr
+  = call_t (run M f) (match lookup_in ks m with Some (o, x) => TMeth h o x | None => TErr OAttrErr end) n read tr.
+Proof.
+  intros IH Hks Hc. rewrite rs_lookup, lookup_in_k.
+  destruct (lookup_k ks m) as [[k x]|] eqn:El; simpl; [|reflexivity].
+  apply lookup_k_in in El. destruct El as [Hk Ha].
+  apply call_meth_eq; auto. apply (in_code_meth k x); [apply Hks; exact Hk|]. apply cls_attr_in in Ha. tauto.
+Qed.
+
+Lemma call_resolve_eq f s s' owner a r m n read rest tr flag :
+  IHrun f -> frel s s' (a :: rest) -> in_code flag (a :: rest) -> flag_ok s flag ->
+  (a = ACall r m n \/ a = ARead r m) ->
+  call_t (run M' f) (resolve M' s' owner r m) n read tr = call_t (run M f) (resolve M s owner r m) n read tr.
+Proof.
+  intros IH Hfr Hcode Hflag Ha.
+  assert (Hattr : r <> RMod -> attr_of a = Some (r, m)).
+  { intros Hr. destruct Ha as [->| ->]; destruct r; simpl; congruence. }
+  assert (Hlooked : In m (looked_of cn flag a) -> nmem m L = true).
+  { intros Hin. eapply (proj1 Hcode); [left; reflexivity|exact Hin]. }
+  unfold resolve. rewrite items'. change (m_stores M') with (m_stores M). change (m_vars M') with (m_vars M).
+  destruct r as [|c|c|c|c| |].
+  - (* module name *) rewrite rs_find_fn. destruct (nmem m (m_stores M)); [reflexivity|].
+    destruct (find_fn (m_items M) m) as [g|] eqn:Eg; [|reflexivity]. unfold call_t.
+    destruct read; [reflexivity|]. destruct (Nat.eqb (f_params g) n); [|reflexivity].
+    apply IH with (flag := false); [apply FSame|eapply in_code_fn; eauto|exact Logic.I].
+  - (* C.m *) rewrite rs_find_cls. destruct (find_cls (m_items M) c) as [k0|] eqn:Ec; cbn [option_map]; [|reflexivity].
+    rewrite rs_chain. apply via_eq; auto; [intros k; apply chain_classes|].
+    intros k x Hk Hx. apply compat_cls; [eapply chain_classes; eauto|apply cls_attr_in in Hx; tauto|].
+    intros Hp. eapply looked_plain_same; eauto; [eapply chain_classes; eauto|].
+    apply Hlooked. unfold looked_of. rewrite Hattr by discriminate.
+    assert (nmem c cn = true) as ->; [|left; reflexivity].
+    apply nmem_In. apply in_map_iff. apply find_cls_in in Ec. destruct Ec as [E1 E2].
+    exists k0. split; [exact E2|apply in_classes; exact E1].
+  - (* C().m *) rewrite rs_find_cls. destruct (find_cls (m_items M) c) as [k0|] eqn:Ec; cbn [option_map]; [|reflexivity].
+    rewrite rs_chain. apply via_eq; auto; [intros k; apply chain_classes|].
+    intros k x Hk Hx. apply compat_inst. eapply chain_classes; eauto.
+  - rewrite rs_find_cls. destruct (find_cls (m_items M) c) as [k0|] eqn:Ec; cbn [option_map]; [|reflexivity].
+    rewrite rs_chain. apply via_eq; auto; [intros k; apply chain_classes|].
+    intros k x Hk Hx. apply compat_inst. eapply chain_classes; eauto.
+  - destruct (nmem c (m_vars M)); [|reflexivity].
+    rewrite rs_find_cls. destruct (find_cls (m_items M) c) as [k0|] eqn:Ec; cbn [option_map]; [|reflexivity].
+    rewrite rs_chain. apply via_eq; auto; [intros k; apply chain_classes|].
+    intros k x Hk Hx. apply compat_inst. eapply chain_classes; eauto.
+  - (* self.m / cls.m *)
+    inversion Hfr; subst.
+    + destruct s' as [|c|c| ]; try reflexivity.
+      * rewrite rs_chain. apply via_eq; auto; [intros k; apply chain_classes|].
+        intros k x Hk Hx. apply compat_inst. eapply chain_classes; eauto.
+      * rewrite rs_chain. apply via_eq; auto; [intros k; apply chain_classes|].
+        intros k x Hk Hx. apply compat_cls; [eapply chain_classes; eauto|apply cls_attr_in in Hx; tauto|].
+        intros Hp. eapply looked_plain_same; eauto; [eapply chain_classes; eauto|].
+        apply Hlooked. unfold looked_of. rewrite Hattr by discriminate.
+        simpl in Hflag. rewrite Hflag. left; reflexivity.
+    + exfalso. simpl in H. apply andb_true_iff in H. destruct H as [H _].
+      destruct Ha as [->| ->]; simpl in H; discriminate.
+    + simpl in H0. apply andb_true_iff in H0. destruct H0 as [H0 _].
+      destruct Ha as [->| ->]; simpl in H0; [|discriminate].
+      rewrite rs_chain. apply via_eq; auto; [intros k'; apply chain_classes|].
+      intros k' x Hk' Hx. apply compat_inst_cls; [eapply chain_classes; eauto|].
+      destruct (non_instance_spec NI k m H0) as [HmI Hmk].
+      assert (Hkc' : In k' (classes M)) by (eapply chain_classes; eauto).
+      assert (Hall : nmem m (all_meth_names M) = true).
+      { apply nmem_In. unfold all_meth_names. apply in_flat_map. exists k. split; [exact H|apply nmem_In; exact Hmk]. }
+      unfold cls_attr in Hx. rewrite (not_alias k' m Hkc' Hall) in Hx. apply find_meth_in in Hx.
+      destruct Hx as [Hx1 Hx2]. destruct (noninst x) eqn:En; [reflexivity|].
+      pose proof (inst_names_in M k' x Hkc' Hx1 En) as Hc. fold NI in Hc. congruence.
+  - (* super().m *)
+    inversion Hfr; subst.
+    + destruct s' as [|c|c| ]; destruct owner as [o|]; try reflexivity.
+      * rewrite rs_chain, rs_after_owner. apply via_eq; auto.
+        { intros k Hk. eapply chain_classes. eapply after_owner_incl; eauto. }
+        intros k x Hk Hx. apply compat_inst. eapply chain_classes. eapply after_owner_incl; eauto.
+      * rewrite rs_chain, rs_after_owner. apply via_eq; auto.
+        { intros k Hk. eapply chain_classes. eapply after_owner_incl; eauto. }
+        intros k x Hk Hx.
+        assert (Hkc : In k (classes M)) by (eapply chain_classes; eapply after_owner_incl; eauto).
+        apply compat_cls; [exact Hkc|apply cls_attr_in in Hx; tauto|].
+        intros Hp. eapply looked_plain_same; eauto.
+        apply Hlooked. unfold looked_of. rewrite Hattr by discriminate. left; reflexivity.
+    + exfalso. simpl in H. apply andb_true_iff in H. destruct H as [H _].
+      destruct Ha as [->| ->]; simpl in H; discriminate.
+    + exfalso. simpl in H0. apply andb_true_iff in H0. destruct H0 as [H0 _].
+      destruct Ha as [->| ->]; simpl in H0; discriminate.
+Qed.
+
+Lemma recv_then_eq f r tr K K' :
+  IHrun f -> (forall tr1, K' tr1 = K tr1) ->
+  recv_then_t M' (run M' f) r tr K' = recv_then_t M (run M f) r tr K.
+Proof.
+  intros IH HK. unfold recv_then_t. destruct (creates r) as [c|]; [|apply HK].
+  rewrite items', rs_find_cls. destruct (find_cls (m_items M) c) as [k0|] eqn:Ec; cbn [option_map]; [|reflexivity].
+  rewrite rs_chain, rs_lookup, lookup_in_k.
+  destruct (lookup_k (chain (m_items M) CHAIN_FUEL c) INIT) as [[k x]|] eqn:El; cbn [option_map fst snd]; [|apply HK].
+  apply lookup_k_in in El. destruct El as [Hk Hx].
+  assert (Hkc : In k (classes M)) by (eapply chain_classes; eauto).
+  destruct (compat_inst c k x Hkc) as [Hb [Hp [Hf [Hfr Hfl]]]].
+  specialize (Hf 0). specialize (Hfr 0). specialize (Hfl 0).
+  destruct (bind (ViaInst c) x 0) as [sv fits] eqn:E1.
+  destruct (bind (ViaInst c) (rs_meth L NI k x) 0) as [sv' fits'] eqn:E2.
+  simpl in Hf, Hfr, Hfl. subst fits'. destruct fits; [|reflexivity].
+  assert (Hrun : forall tr0, run M' f sv' (Some (c_name k)) (m_body (rs_meth L NI k x)) tr0
+                             = run M f sv (Some (c_name k)) (m_body x) tr0).
+  { intros tr0. rewrite Hb. eapply IH; eauto. apply (in_code_meth k x); auto. apply cls_attr_in in Hx. tauto. }
+  rewrite Hrun.
+  destruct (m_kind x) eqn:Ek; destruct (m_kind (rs_meth L NI k x)) eqn:Ek';
+    try (destruct (Hp (or_introl eq_refl)) as [Hxx _]; rewrite Hxx in Ek'; congruence);
+    try (destruct (Hp (or_intror eq_refl)) as [Hxx _]; rewrite Hxx in Ek'; congruence);
+    try reflexivity;
+    destruct (run M f sv (Some (c_name k)) (m_body x) tr) as [tr1 []]; simpl; auto.
+Qed.
+
+Lemma rs_sim : forall f, IHrun f.
+Proof.
+  induction f as [|f IH]; intros s s' owner b tr flag Hfr Hcode Hflag; [reflexivity|].
+  destruct b as [|a rest]; [reflexivity|]. rewrite !run_S.
+  assert (Hrest : forall tr1, run M' f s' owner rest tr1 = run M f s owner rest tr1).
+  { intros tr1. eapply IH; eauto; [eapply frel_tl; eauto|eapply in_code_tl; eauto]. }
+  assert (Hact : act_res M' (run M' f) s' owner a tr = act_res M (run M f) s owner a tr).
+  { destruct a as [k| |r m n|r m|r m n|c]; unfold act_res.
+    - reflexivity.
+    - inversion Hfr; subst; [reflexivity| |].
+      + simpl in H. discriminate.
+      + simpl in H0. discriminate.
+    - apply recv_then_eq; [exact IH|]. intros tr1. eapply call_resolve_eq; eauto.
+    - apply recv_then_eq; [exact IH|]. intros tr1. eapply call_resolve_eq; eauto.
+    - exfalso. pose proof (proj2 Hcode (ADyn r m n) (or_introl eq_refl)) as H. discriminate.
+    - apply recv_then_eq; [exact IH|]. reflexivity. }
+  rewrite Hact. destruct (act_res M (run M f) s owner a tr) as [tr1 []]; simpl; auto.
+Qed.
+End RS.
+
+(* T02k_self_cls_sound *)
+Theorem self_cls_pass_sound M :
+  wf_mod M = true -> no_dyn M = true ->
+  forall fuel, run_module fuel (rs_pass M) = run_module fuel M.
+Proof.
+  intros Hwf Hnd fuel. unfold run_module.
+  change (m_vars (rs_pass M)) with (m_vars M). change (m_main (rs_pass M)) with (m_main M).
+  eapply (rs_sim M Hwf Hnd) with (flag := false); [apply FSame|apply in_code_main; assumption|exact Logic.I].
+Qed.
+
+Lemma rs_meth_body L NI k x : m_body (rs_meth L NI k x) = m_body x.
+Proof. destruct (rs_meth_shape L NI k x) as [E|E|E]; rewrite E; reflexivity. Qed.
+
+Lemma flat_map_map {A B C} (f : B -> list C) (g : A -> B) l : flat_map f (map g l) = flat_map (fun a => f (g a)) l.
+Proof. induction l; simpl; auto. rewrite IHl. reflexivity. Qed.
+Lemma flat_map_ext' {A B} (f g : A -> list B) l : (forall a, f a = g a) -> flat_map f l = flat_map g l.
+Proof. intros H. induction l; simpl; auto. rewrite H, IHl. reflexivity. Qed.
+
+Lemma ctx_acts_rs M : ctx_acts (rs_pass M) = ctx_acts M.
+Proof.
+  unfold ctx_acts, rs_pass. cbn [m_items m_main]. f_equal.
+  rewrite flat_map_map. apply flat_map_ext'. intros [k|g]; [|reflexivity].
+  cbn [rs_item c_meths c_name]. rewrite flat_map_map. apply flat_map_ext'. intros x.
+  rewrite rs_meth_body. reflexivity.
+Qed.
+Lemma classes_rs M : classes (rs_pass M) = map (rs_cls (looked_up_on_class M) (inst_names M)) (classes M).
+Proof.
+  unfold classes, rs_pass. cbn [m_items]. rewrite flat_map_map.
+  induction (m_items M) as [|[k|g] tl IH]; simpl; auto. f_equal. exact IH.
+Qed.
+Lemma all_meth_names_rs M : all_meth_names (rs_pass M) = all_meth_names M.
+Proof.
+  unfold all_meth_names. rewrite classes_rs, flat_map_map. apply flat_map_ext'. intros k.
+  cbn [rs_cls c_meths]. rewrite map_map. apply map_ext. intros x. apply rs_meth_name.
+Qed.
+Lemma wf_mod_rs M : wf_mod (rs_pass M) = wf_mod M.
+Proof.
+  unfold wf_mod. rewrite all_meth_names_rs, classes_rs.
+  induction (classes M) as [|k tl IH]; simpl; auto. rewrite IH. reflexivity.
+Qed.
+Lemma no_dyn_rs M : no_dyn (rs_pass M) = no_dyn M.
+Proof. unfold no_dyn. rewrite ctx_acts_rs. reflexivity. Qed.
+
+(* T02k_self_cls_sound: the model of the rule (five passes, as processing.fix runs it) *)
+Theorem self_cls_sound M :
+  wf_mod M = true -> no_dyn M = true ->
+  forall fuel, run_module fuel (rs_model M) = run_module fuel M.
+Proof.
+  unfold rs_model. generalize 5 as n. intros n. revert M.
+  induction n as [|n IH]; intros M Hwf Hnd fuel; simpl; [reflexivity|].
+  rewrite IH; [apply self_cls_pass_sound; assumption|rewrite wf_mod_rs; exact Hwf|rewrite no_dyn_rs; exact Hnd].
+Qed.
+
+(* the attribute is looked up with a string: the rule cannot see it (known finding F02-28) *)
+Theorem self_cls_dynamic_refuted :
+  exists M, wf_mod M = true /\ no_dyn M = false /\ run_module 9 (rs_model M) <> run_module 9 M
+            /\ snd (run_module 9 M) = OOk.
+Proof.
+  exists (mkMod [IClass (mkCls 1 None [mkMeth 1 KPlain 1 [AEv 1]] [])] [] [] [ADyn (RCls 1) 1 1]).
+  repeat split; try reflexivity. vm_compute. discriminate.
+Qed.
+
+(* without the guard "looked up on a class" (the code before the repair) an explicit instance breaks *)
+Definition rs_pass_unguarded (M : module) : module :=
+  mkMod (map (rs_item [] (inst_names M)) (m_items M)) (m_vars M) (m_stores M) (m_main M).
+Theorem self_cls_unguarded_refuted :
+  exists M, wf_mod M = true /\ no_dyn M = true /\ run_module 9 (rs_pass_unguarded M) <> run_module 9 M
+            /\ snd (run_module 9 M) = OOk.
+Proof.
+  exists (mkMod [IClass (mkCls 1 None [mkMeth 1 KPlain 1 [AEv 1]] [])] [] [] [ACall (RCls 1) 1 1]).
+  repeat split; try reflexivity. vm_compute. discriminate.
+Qed.
